@@ -26,6 +26,34 @@ def sh(cmd, cwd=None, timeout=3600, env=None):
     return r.returncode, (r.stdout + r.stderr)
 
 
+def recheck(a):
+    dst = os.path.join(VERIF, "seeded", a.sid)
+    meta = json.load(open(os.path.join(dst, "meta.json")))
+    patch = os.path.join(dst, "patch.diff")
+    rc, out = sh(["git", "-C", "/repo", "status", "--porcelain"])
+    assert out.strip() == "", "/repo is not clean: %s" % out
+    rc, out = sh(["git", "-C", "/repo", "apply", patch])
+    assert rc == 0, out
+    try:
+        for p in a.props:
+            t = time.time()
+            rc, out = sh([os.path.join(VERIF, "run_check.py"), p, "--tier", a.tier], cwd=VERIF, timeout=7200)
+            classes = [l.strip() for l in out.splitlines() if l.startswith("violation class")]
+            first = [l.strip() for l in out.splitlines() if l.strip().startswith("clause=")][:3]
+            meta["checks"][p] = dict(exit=rc, wall_s=round(time.time() - t, 1), violation_classes=classes, first_violations=first,
+                                     summary=[l for l in out.splitlines() if l.startswith(p + " tier=")][-1:])
+            meta["ran"].append("re-check: git -C /repo apply patch.diff && ./run_check.py %s --tier %s -> exit %d" % (p, a.tier, rc))
+            if p not in meta["checked_with"]:
+                meta["checked_with"].append(p)
+            print(p, "exit", rc, classes[:6])
+    finally:
+        sh(["git", "-C", "/repo", "checkout", "--", "."])
+        sh("rm -f /repo/circle.mim")
+    meta["detected_by"] = [p for p, r in meta["checks"].items() if r["exit"] == 1]
+    json.dump(meta, open(os.path.join(dst, "meta.json"), "w"), indent=1)
+    print("detected by:", meta["detected_by"])
+
+
 def main():
     ap = argparse.ArgumentParser()
     ap.add_argument("sid")
@@ -33,7 +61,10 @@ def main():
     ap.add_argument("--skip-suite", action="store_true")
     ap.add_argument("--tier", default="quick")
     ap.add_argument("--needs", default="")
+    ap.add_argument("--recheck", action="store_true", help="only re-run the checks against the stored patch and update meta.json")
     a = ap.parse_args()
+    if a.recheck:
+        return recheck(a)
     src = "/tmp/seed/%s" % a.sid
     dst = os.path.join(VERIF, "seeded", a.sid)
     os.makedirs(dst, exist_ok=True)
